@@ -82,7 +82,10 @@ theorem setDiscard_eq (l : List Coord) (c : Coord) : Py.setDiscard l c = l.filte
   simp [Py.setDiscard, bne]
 
 /-- closes a leaf after case splitting: by simplification with the hypotheses, else by linear arithmetic over them -/
-macro "xl_close" : tactic => `(tactic| first | (simp_all; done) | ((try simp_all) <;> omega))
+macro "xl_close" : tactic => `(tactic| first
+  | (simp_all; done)
+  | (simp_all [insertKey]; done)
+  | ((try simp_all [insertKey]) <;> (repeat' split) <;> (first | (simp_all; done) | omega | grind)))
 
 /-- leaf goals of the loop comparison: equal ranges, equal loop bodies -/
 macro "xl_leaf" : tactic => `(tactic| first
